@@ -115,10 +115,9 @@ CallEvent(S, a) ==
   ELSE IF a.event \in Exchange THEN
     IF ~c.accepted THEN Res(S, 0)                               \* "call participants expected 2"
     ELSE IF s \notin c.parties THEN Res(S, 0)                   \* "call event from non-party session"
-    ELSE LET other == CHOOSE x \in c.parties : x # s
-         IN [st |-> S,
-             out |-> [NoOut EXCEPT !.infos = {[to |-> x, ev |-> a.event, seq |-> c.seq, from |-> u, via |-> "topic"] : x \in {other} \cap S.live}],
-             opt |-> {}]
+    ELSE [st |-> S,                                             \* forwarded to the other party's session
+          out |-> [NoOut EXCEPT !.infos = {[to |-> x, ev |-> a.event, seq |-> c.seq, from |-> u, via |-> "topic"] : x \in (c.parties \ {s}) \cap S.live}],
+          opt |-> {}]
   ELSE IF a.event = EvHangUp THEN
     IF c.accepted THEN
       IF s \notin c.parties THEN Res(S, 0)
